@@ -420,7 +420,7 @@ Definition step_ok (m : mst) (s : st) (o : op) : Prop :=
   snd (mon m o (snd (step s o))) = [] /\ Inv (fst (mon m o (snd (step s o)))) (fst (step s o)).
 
 Definition plain (o : op) : bool :=
-  match o with Inbound _ _ | AddRespCb _ _ _ _ | AddResultCb _ _ _ | ParArrive _ _ _ _ => false | _ => true end.
+  match o with Inbound _ _ | AddRespCb _ _ _ _ | AddResultCb _ _ _ | ParArrive _ _ _ _ | SeqArrive _ => false | _ => true end.
 
 Lemma plain_facts s o : plain o = true -> vsame s (fst (step s o)) /\ existsb is_invoke (snd (step s o)) = false.
 Proof.
@@ -702,6 +702,37 @@ Proof.
   rewrite same_rets_refl by apply forallb_rets. reflexivity.
 Qed.
 
+(* ---- arrivals back to back ---- *)
+Lemma mon_seq_sub l : forall m s, Inv m s ->
+  snd (mon_seq m l) = inv (snd (run_seq repaired s l)) /\ Inv (fst (mon_seq m l)) (fst (run_seq repaired s l)).
+Proof.
+  induction l as [|[p d] r IH]; intros m s HI; [split; [reflexivity | exact HI]|].
+  cbn [mon_seq run_seq]. destruct (inbound_sub m s p d HI) as [E1 HI1].
+  change (step s (Inbound p d)) with (inbound_v repaired s p d) in E1, HI1.
+  destruct (mon_inbound m p d) as [m1 i1]. destruct (inbound_v repaired s p d) as [s1 o1]. cbn [fst snd] in *.
+  destruct (IH m1 s1 HI1) as [F1 HI2].
+  destruct (mon_seq m1 r) as [m2 i2]. destruct (run_seq repaired s1 r) as [s2 o2]. cbn [fst snd] in *.
+  subst. rewrite inv_app. split; [reflexivity | exact HI2].
+Qed.
+
+Lemma inv_seq_obs out : inv (seq_obs out) = inv out.
+Proof.
+  induction out as [|o out IH]; [reflexivity|]. unfold seq_obs. cbn [flat_map]. unfold inv. rewrite filter_app.
+  fold (seq_obs out). fold (inv (seq_obs out)). rewrite IH. destruct o; reflexivity.
+Qed.
+
+Lemma seq_ok m s l : Inv m s -> step_ok m s (SeqArrive l).
+Proof.
+  intros HI. unfold step_ok, mon.
+  assert (Hst : step s (SeqArrive l) = (fst (run_seq repaired s l), seq_obs (snd (run_seq repaired s l)))).
+  { unfold step. cbn [step_v]. destruct (run_seq repaired s l); reflexivity. }
+  rewrite Hst. clear Hst. cbn [fst snd].
+  destruct (mon_seq_sub l m s HI) as [E1 HI1].
+  destruct (mon_seq m l) as [m1 i1]. destruct (run_seq repaired s l) as [s1 out]. cbn [fst snd] in *. split; [|exact HI1].
+  fold (inv (seq_obs out)). rewrite inv_seq_obs. subst i1.
+  rewrite same_multiset_refl by apply forallb_inv. reflexivity.
+Qed.
+
 Lemma mon_step_ok m s o :
   Inv m s ->
   snd (mon m o (snd (step s o))) = [] /\ Inv (fst (mon m o (snd (step s o)))) (fst (step s o)).
@@ -710,6 +741,7 @@ Proof.
   - apply inbound_ok; exact HI.
   - apply addresp_ok; exact HI.
   - apply addresult_ok; exact HI.
+  - apply seq_ok; exact HI.
   - apply par_ok; exact HI.
 Qed.
 
